@@ -5,6 +5,7 @@ import (
 	"math"
 	"math/big"
 	"math/bits"
+	"strings"
 
 	"github.com/tuneinsight/lattigo/v6/core/rlwe"
 	"github.com/tuneinsight/lattigo/v6/ring"
@@ -712,7 +713,11 @@ func mutate(r *eng.Rand, l lit, m string) lit {
 	case "logq", "logq-custom-root", "logq-size-0", "logq-size-neg", "logq-size-61", "logq-size-64", "logp-size-62", "logq-small", "logq-many":
 		l = mutateLogQ(r, l, m)
 	case "scheme":
-		l = mutateScheme(r, l)
+		l = mutateScheme(r, l, "")
+	default:
+		if strings.HasPrefix(m, "scheme/") {
+			l = mutateScheme(r, l, strings.TrimPrefix(m, "scheme/"))
+		}
 	}
 	return l
 }
@@ -796,19 +801,58 @@ func mutateLogQ(r *eng.Rand, l lit, m string) lit {
 }
 
 // mutateScheme applies a scheme-level mutation (plaintext modulus / default scale).
-func mutateScheme(r *eng.Rand, l lit) lit {
+var bgvClasses = []string{"t-zero", "t-in-Q0", "t-in-Qi", "t-above-Q0", "t-just-above-Q0", "t-composite", "t-order-2", "t-order-4", "t-order-8", "t-pow2", "t-one", "t-even", "t-max-valid", "t-in-P", "t-order-16", "t-half-Q0"}
+var ckksScales = []int{129, 130, 200, 1023, 1024, 2000, -1, -40, 128, 127}
+
+// schemeClasses lists the scheme-level mutation classes of a scheme (for the systematic part).
+func schemeClasses(scheme string) []string {
+	switch scheme {
+	case "bgv":
+		return bgvClasses
+	case "ckks":
+		var o []string
+		for _, s := range ckksScales {
+			o = append(o, fmt.Sprintf("logscale%d", s))
+		}
+		return o
+	}
+	return []string{"scale"}
+}
+
+func mutateScheme(r *eng.Rand, l lit, class string) lit {
 	switch l.Scheme {
 	case "bgv":
-		q0 := l.Q[0]
-		c := eng.Pick(r, "t-zero", "t-in-Q0", "t-in-Qi", "t-above-Q0", "t-just-above-Q0", "t-composite", "t-order-2", "t-order-4", "t-order-8", "t-pow2", "t-one", "t-even", "t-max-valid", "t-in-P", "t-order-16")
+		c := class
+		if c == "" {
+			c = eng.Pick(r, bgvClasses...)
+		}
 		l.Mut = "scheme/" + c
+		if c == "t-in-Qi" {
+			// a prime of Q other than Q[0] and below it (so that only the t|Q rule can refuse it)
+			if len(l.Q) < 2 {
+				if pr := gen.Primes(bits.Len64(l.Q[0])-1, l.nthRoot(), 1, gen.PosBelow, map[uint64]bool{l.Q[0]: true}); len(pr) > 0 {
+					l.Q = append(l.Q, pr[0])
+				}
+			}
+			mi := 0
+			for i, q := range l.Q {
+				if q > l.Q[mi] {
+					mi = i
+				}
+			}
+			l.Q[0], l.Q[mi] = l.Q[mi], l.Q[0]
+		}
+		q0 := l.Q[0]
 		switch c {
 		case "t-zero":
 			l.T = 0
 		case "t-in-Q0":
 			l.T = l.Q[0]
 		case "t-in-Qi":
-			l.T = l.Q[r.N(len(l.Q))]
+			l.T = l.Q[len(l.Q)-1-r.N(max(1, len(l.Q)-1))]
+		case "t-half-Q0":
+			// between Q0/2 and Q0
+			l.T = firstPrime(q0/2+16-(q0/2)%16+1, 16, nil)
 		case "t-above-Q0":
 			l.T = firstPrime(q0+16-(q0%16)+1+16*(r.U64()%(1<<16)), 16, nil)
 		case "t-just-above-Q0":
@@ -849,7 +893,10 @@ func mutateScheme(r *eng.Rand, l lit) lit {
 			}
 		}
 	case "ckks":
-		l.LogScale = eng.Pick(r, 129, 130, 200, 1023, 1024, 2000, -1, -40, 128, 127)
+		l.LogScale = eng.Pick(r, ckksScales...)
+		if class != "" {
+			fmt.Sscanf(class, "logscale%d", &l.LogScale)
+		}
 		l.Mut = fmt.Sprintf("scheme/logscale%d", l.LogScale)
 	default:
 		l.Scale = eng.Pick(r, 0.5, 1e-9, math.Exp2(127), math.Exp2(200), 3)
